@@ -76,9 +76,10 @@ enum Form
   F_POSTDEC,
   F_IDX,
   F_ADDRIDX,
+  F_ADDREV, // n + p: the library defines it as p + n
   F_N
 };
-static const char* fname[] = { "p+n", "p-n", "p+=n", "p-=n", "++p", "p++", "--p", "p--", "p[n]", "&p[n]" };
+static const char* fname[] = { "p+n", "p-n", "p+=n", "p-=n", "++p", "p++", "--p", "p--", "p[n]", "&p[n]", "n+p" };
 
 struct Obs
 {
@@ -220,6 +221,7 @@ static void run_forms(Env& e, uint64_t poff, NT n, bool n_independent_forms)
           case F_POSTDEC: { auto r = t--; o.result = addr(r); o.operand = addr(t); o.has_operand = true; break; }
           case F_IDX: { auto& r = t[opnd]; o.result = reinterpret_cast<uintptr_t>(&reinterpret_cast<const volatile char&>(r)); break; }
           case F_ADDRIDX: if constexpr (!std::is_class_v<T>) o.result = addr(&t[opnd]); break;
+          case F_ADDREV: o.result = addr(opnd + t); break;
         }
       } else {
         setcell();
@@ -233,6 +235,7 @@ static void run_forms(Env& e, uint64_t poff, NT n, bool n_independent_forms)
           case F_PREDEC: { auto& r = --c; o.ret_is_operand_ref = (reinterpret_cast<const volatile char*>(&reinterpret_cast<const volatile char&>(r)) == reinterpret_cast<const volatile char*>(g_base + CELL_P)); o.operand = cellval(); o.result = o.operand; o.has_operand = true; break; }
           case F_IDX: { auto& r = c[opnd]; o.result = reinterpret_cast<uintptr_t>(&reinterpret_cast<const volatile char&>(r)); break; }
           case F_ADDRIDX: if constexpr (!std::is_class_v<T>) o.result = addr(&c[opnd]); break;
+          case F_ADDREV: o.result = addr(opnd + c); break;
           default: break;
         }
       }
